@@ -4,9 +4,9 @@ namespace TV.TextIO
 open TV.ObsTime
 
 /-- the fields of the data line of an observation, in column order, then the feature values -/
-def rowFields (f : CsvFmt) (d : Nat) (pf : List Tok) (r : Row) (afs : List Int) : List Str :=
+def rowFields (f : CsvFmt) (d : Nat) (pf : List Tok) (r : Row) (afs : List AFVal) : List Str :=
   cols f (fixedCoreS d r.x) (fixedCoreS d r.y) (if f.idU = -1 then none else some (fixedCoreS d r.z))
-    (if f.idT = -1 then none else some (printTime pf r.t)) ++ afs.map intStr
+    (if f.idT = -1 then none else some (printTime pf r.t)) ++ afs.map afText
 
 theorem strip_fixedWS (w d : Nat) (v : SNum) : strip (fixedWS w d v) = fixedCoreS d v := renderFixedS_eq w d v
 
@@ -19,7 +19,7 @@ theorem cols_ne_nil (f : CsvFmt) (E N : Str) (U T : Option Str) : cols f E N U T
   omega
 
 /-- the writer's data line is the join of the fields -/
-theorem writeRow_eq (f : CsvFmt) (geo : Bool) (pf : List Tok) (naf : Nat) (r : Row) (afs : List Int)
+theorem writeRow_eq (f : CsvFmt) (geo : Bool) (pf : List Tok) (naf : Nat) (r : Row) (afs : List AFVal)
     (hv : ValidIds f) (htime : f.idT ≠ -1 → TimeOK pf f.sep) :
     writeRow f geo pf (orderList f naf) r afs = .ok (joinChar f.sep (rowFields f (floatFmt geo).2 pf r afs)) := by
   unfold writeRow
@@ -32,7 +32,7 @@ theorem writeRow_eq (f : CsvFmt) (geo : Bool) (pf : List Tok) (naf : Nat) (r : R
     rw [printInOrder_layout f hv naf _ _ _ _ _ (by split <;> simp_all) (by split <;> simp_all)]
     congr 1
     unfold rowFields
-    have e : (afs.map (fun v => f.sep :: intStr v)) = (afs.map intStr).map (fun v => f.sep :: v) := by simp
+    have e : (afs.map (fun v => f.sep :: afText v)) = (afs.map afText).map (fun v => f.sep :: v) := by simp
     rw [e, joinChar_append_flatten _ _ _ (cols_ne_nil _ _ _ _ _)]
     congr 2
     simp only [strip_fixedWS]
@@ -74,8 +74,21 @@ theorem numField_ok (sep : Char) (hsep : numChar sep = false) (s : Str) (hne : s
   · intro hm
     exact (numChar_not_ws (h _ hm)).2.2.1 rfl
 
-theorem rowFields_ok (f : CsvFmt) (d : Nat) (pf : List Tok) (r : Row) (afs : List Int) (hv : ValidIds f)
-    (hsep : numChar f.sep = false) (htime : f.idT ≠ -1 → TimeOK pf f.sep) :
+/-- a text that survives as one field of a data line: not empty, no blank at either end, not starting with the comment
+character, free of the separator and of the newline -/
+def FieldOK (sep : Char) (s : Str) : Prop :=
+  (s ≠ [] ∧ (∀ c, s.head? = some c → isWs c = false ∧ c ≠ '#') ∧ (∀ c, s.getLast? = some c → isWs c = false))
+  ∧ sep ∉ s ∧ '\n' ∉ s
+
+/-- what a feature value must satisfy to be written as one column: its text is a good field (always true of an `int`;
+of a float when the separator is not a number character, see `afOK_int`, `afOK_dec`) -/
+def AFOK (sep : Char) (v : AFVal) : Prop := FieldOK sep (afText v)
+
+theorem afOK_int (sep : Char) (hsep : numChar sep = false) (i : Int) : AFOK sep (.int i) :=
+  numField_ok _ hsep _ (intStr_ne_nil _) (intStr_numChar _)
+
+theorem rowFields_ok (f : CsvFmt) (d : Nat) (pf : List Tok) (r : Row) (afs : List AFVal) (hv : ValidIds f)
+    (hsep : numChar f.sep = false) (htime : f.idT ≠ -1 → TimeOK pf f.sep) (hafs : ∀ v ∈ afs, AFOK f.sep v) :
     ∀ s ∈ rowFields f d pf r afs,
       (s ≠ [] ∧ (∀ c, s.head? = some c → isWs c = false ∧ c ≠ '#') ∧ (∀ c, s.getLast? = some c → isWs c = false))
       ∧ f.sep ∉ s ∧ '\n' ∉ s := by
@@ -101,11 +114,11 @@ theorem rowFields_ok (f : CsvFmt) (d : Nat) (pf : List Tok) (r : Row) (afs : Lis
         exact ⟨⟨printTime_ne_nil pf f.sep hok r.t, (printTime_head_last pf f.sep hok r.t).1, (printTime_head_last pf f.sep hok r.t).2⟩,
           ha.1, ha.2.2.2⟩
   · simp only [List.mem_map] at hs
-    obtain ⟨i, _, rfl⟩ := hs
-    exact numField_ok _ hsep _ (intStr_ne_nil _) (intStr_numChar _)
+    obtain ⟨v, hv', rfl⟩ := hs
+    exact hafs v hv'
 
 /-- the data line of an observation -/
-def rowLine (f : CsvFmt) (geo : Bool) (pf : List Tok) (r : Row) (afs : List Int) : Str :=
+def rowLine (f : CsvFmt) (geo : Bool) (pf : List Tok) (r : Row) (afs : List AFVal) : Str :=
   joinChar f.sep (rowFields f (floatFmt geo).2 pf r afs)
 
 /-- the observation as the reader returns it -/
@@ -117,10 +130,11 @@ def expRow (f : CsvFmt) (geo : Bool) (pf : List Tok) (r : Row) : RRow :=
 /-- **T2 (data line)**: for a bijective column layout and a separator that is not a number character,
 the line written for an observation is read back as that observation: coordinates equal to the
 printed decimals, the timestamp reduced to the fields of the format. -/
-theorem row_roundtrip_line (f : CsvFmt) (geo : Bool) (pf : List Tok) (naf : Nat) (r : Row) (afs : List Int)
+theorem row_roundtrip_line (f : CsvFmt) (geo : Bool) (pf : List Tok) (naf : Nat) (r : Row) (afs : List AFVal)
     (hv : ValidIds f) (hsep : numChar f.sep = false) (hnl : f.sep ≠ '\n')
     (htime : f.idT ≠ -1 → TimeOK pf f.sep ∧ Fits r.t)
-    (hnd : decTrunc (r.x.toInt, (floatFmt geo).2) ≠ noData ∧ decTrunc (r.y.toInt, (floatFmt geo).2) ≠ noData) :
+    (hnd : decTrunc (r.x.toInt, (floatFmt geo).2) ≠ noData ∧ decTrunc (r.y.toInt, (floatFmt geo).2) ≠ noData)
+    (hafs : ∀ v ∈ afs, AFOK f.sep v) :
     writeRow f geo pf (orderList f naf) r afs = .ok (rowLine f geo pf r afs) ∧
       '\n' ∉ rowLine f geo pf r afs ∧ strip (rowLine f geo pf r afs) = rowLine f geo pf r afs ∧
       (∃ c cs, rowLine f geo pf r afs = c :: cs ∧ c ≠ '#') ∧
@@ -129,7 +143,7 @@ theorem row_roundtrip_line (f : CsvFmt) (geo : Bool) (pf : List Tok) (naf : Nat)
   unfold rowLine expRow
   refine ⟨writeRow_eq f geo pf naf r afs hv htime', ?_⟩
   generalize hd : (floatFmt geo).2 = d at *
-  have hok := rowFields_ok f d pf r afs hv hsep htime'
+  have hok := rowFields_ok f d pf r afs hv hsep htime' hafs
   have hne : rowFields f d pf r afs ≠ [] := by
     unfold rowFields
     intro h
@@ -150,7 +164,7 @@ theorem row_roundtrip_line (f : CsvFmt) (geo : Bool) (pf : List Tok) (naf : Nat)
       | nil => exact absurd rfl this
       | cons _ _ => rfl
     have hl := cols_lookup f hv (fixedCoreS d r.x) (fixedCoreS d r.y) (if f.idU = -1 then none else some (fixedCoreS d r.z))
-      (if f.idT = -1 then none else some (printTime pf r.t)) (afs.map intStr)
+      (if f.idT = -1 then none else some (printTime pf r.t)) (afs.map afText)
     have hb := validB_bounds hv
     apply readRow_of_fields f pf _ _ hfs (fixedCoreS d r.x) (fixedCoreS d r.y) _ _ _ _ hl.1 hl.2.1
       (coordField_fixedCoreS _ _ _) (coordField_fixedCoreS _ _ _) hnd
@@ -178,16 +192,17 @@ theorem row_roundtrip_line (f : CsvFmt) (geo : Bool) (pf : List Tok) (naf : Nat)
             intro e; subst e; exact this hc
           rw [hq, readTimestamp_printTime pf hok'.1.lossless r.t hok'.2, applyCodes_epoch pf r.t hok'.1.lossless.1]
 
-theorem row_roundtrip (f : CsvFmt) (geo : Bool) (pf : List Tok) (naf : Nat) (r : Row) (afs : List Int)
+theorem row_roundtrip (f : CsvFmt) (geo : Bool) (pf : List Tok) (naf : Nat) (r : Row) (afs : List AFVal)
     (hv : ValidIds f) (hsep : numChar f.sep = false) (hnl : f.sep ≠ '\n')
     (htime : f.idT ≠ -1 → TimeOK pf f.sep ∧ Fits r.t)
-    (hnd : decTrunc (r.x.toInt, (floatFmt geo).2) ≠ noData ∧ decTrunc (r.y.toInt, (floatFmt geo).2) ≠ noData) :
+    (hnd : decTrunc (r.x.toInt, (floatFmt geo).2) ≠ noData ∧ decTrunc (r.y.toInt, (floatFmt geo).2) ≠ noData)
+    (hafs : ∀ v ∈ afs, AFOK f.sep v) :
     ∃ line, writeRow f geo pf (orderList f naf) r afs = .ok line ∧
       '\n' ∉ line ∧ strip line = line ∧ (∃ c cs, line = c :: cs ∧ c ≠ '#') ∧
       readRow f pf line = .ok ⟨(r.x.toInt, (floatFmt geo).2), (r.y.toInt, (floatFmt geo).2),
         if f.idU = -1 then (0, 0) else (r.z.toInt, (floatFmt geo).2),
         if f.idT = -1 then epoch else project pf r.t⟩ :=
-  ⟨_, row_roundtrip_line f geo pf naf r afs hv hsep hnl htime hnd⟩
+  ⟨_, row_roundtrip_line f geo pf naf r afs hv hsep hnl htime hnd hafs⟩
 
 /-! ### decidable forms of the hypotheses (for concrete formats) -/
 
